@@ -134,6 +134,13 @@ Definition vf_adaptive (dt udef : Qc) (W : list row) (inputs : list (arr * list 
                                  (Some (base udef W inputs i + dot (nth i W []) x)%Qc)) (seq 0 (length x)) in
   if forallb (fun o => match o with Some _ => true | None => false end) vals then Some (map oget vals) else None.
 
+(* run(inputs = ..., solver = 'scipy'): the same vector field, but run() hands T = simulation_time to create_input_node,
+   so the N samples sit on linspace(0, simulation_time, N) whatever N is (seed C08-m8) *)
+Definition vf_adaptive_run (T udef : Qc) (W : list row) (inputs : list (arr * list nat)) (t : Qc) (x : row) : option row :=
+  let vals := map (fun i => oadd (forcing (fun a s => sample_adaptive a T t s) inputs i)
+                                 (Some (base udef W inputs i + dot (nth i W []) x)%Qc)) (seq 0 (length x)) in
+  if forallb (fun o => match o with Some _ => true | None => false end) vals then Some (map oget vals) else None.
+
 (* ------------------------------------------------------------------------------------------------ *)
 (* Spec: the property as the user reads it *)
 (* position of unit i in a target list *)
